@@ -550,7 +550,45 @@ def corrupt_execute(case, stats):
     stats.note(case, True, classes=["corrupt_" + case["kind"]])
 
 
+# ------------------------------------------------------------------------------------------ HTTP start-line grammar sweep
+_HTTP_FIRST = [b"HTTP/1.1", b"HTTP/1.0", b"http/1.1", b"HTTP/2", b"HTTP/", b"HTTP", b"GET", b"POST", b"X", b"", b"HTTP/1.1\x00"]
+_HTTP_SECOND = [b"200", b"299", b"404", b"600", b"999", b"0", b"-1", b"+200", b"20", b"1000", b"99999999999999999999999", b"2e2", b"0x10", b"1_0", b"\xd9\xa3", b"\xff", b"/", b"/index.html",
+                b"/a?b=c", b"?a=b", b"http://203.0.113.7", b"*", b"/%zz?%=%", b"//", b"/\xff?\xff=\xff", b""]  # fmt: skip
+_HTTP_THIRD = [None, b"OK", b"Not Found", b"HTTP/1.1", b"\xff", b"", b"OK extra tokens here"]
+_HTTP_SEPS = [b" ", b"  ", b"\t", b"\x0b", b"\xa0"]
+_HTTP_TAILS = [b"", b"\r\n\r\n", b"\r\nHost: x\r\n\r\nbody", b" \r\n\r\n", b"\n\n", b"\r\nNoColon\r\n: empty\r\nK: \r\n\r\n\x00\x01"]
+
+
+def http_lines_enumerate(tier, shard, nshards):
+    def gen():
+        for a in range(len(_HTTP_FIRST)):
+            for b in range(len(_HTTP_SECOND)):
+                yield {"first": a, "second": b}
+
+    return shard_iter(gen(), shard, nshards)
+
+
+def http_lines_execute(case, stats):
+    """Request / status lines from a small grammar (1-4+ tokens, numeric oddities in the status, optional reason,
+    separators, with and without header block): parse_raw_http returns or raises ValueError, nothing else."""
+    if "data" in case:
+        run_entries(case["data"], [case["entry"]], stats, what="replay")
+        return
+    a, b = _HTTP_FIRST[case["first"]], _HTTP_SECOND[case["second"]]
+    n = 0
+    for third in _HTTP_THIRD:
+        for sep in _HTTP_SEPS:
+            for tail in _HTTP_TAILS:
+                toks = [a, b] + ([third] if third is not None else [])
+                data = sep.join(toks) + tail
+                run_entries(data, ["parse_raw_http"], stats, what="start-line grammar")
+                n += 1
+    stats.count("http_lines", n)
+    stats.note(case, True, classes=["http_start_line"])
+
+
 SUBS = [
+    Sub("http_start_lines", http_lines_execute, enumerate=http_lines_enumerate, exhaustive=True),
     Sub("field_corruption_sweep", corrupt_execute, enumerate=corrupt_enumerate, exhaustive=True),
     Sub("atheris_entry_points", fuzz_execute, custom=fuzz_custom, shards={"quick": 1, "thorough": 8}),
     Sub("raw_bytes", raw_execute, strategy=raw_strategy, examples={"quick": 1600, "thorough": 48000}),
